@@ -112,6 +112,9 @@ func genC22(c *hlib.Ctx) {
 	genReplicated(c, "kcCuUnxX")
 	// two series sharing 0..rf nodes
 	genTwoSeries(c, "kcux", 5, c.N(60, 1500))
-	// several series spread over several nodes
-	genMulti(c, "cCouUnNxX", c.N(2500, 50000))
+	// several series spread over several nodes, a third of the requests over 2-4 tenants
+	genMulti(c, "cCouUnNxX", c.N(2500, 40000))
+	// the peers reached over Cap'n Proto (real client, server, writer; scripted tenant storage)
+	genSingleSeries(c, "c", "koNx", 4, c.N(3, 12))
+	genMultiT(c, "oNxX", c.N(300, 5000), "c")
 }
